@@ -815,8 +815,10 @@ func (g *gen) elabCall(x *Expr, e *env) (Val, error) {
 		if a.S != "Slice" || a.GoT == nil {
 			return Val{}, fmt.Errorf("arr() of non-slice")
 		}
-		es := g.ctx.sortOf(a.GoT.Underlying().(*types.Slice).Elem())
-		return Val{T: "(select " + g.stGet(e.st, g.ctx.elemComp(es)) + " (s.ref " + a.T + "))", S: "(Array Int " + es + ")"}, nil
+		et := a.GoT.Underlying().(*types.Slice).Elem()
+		es := g.ctx.sortOf(et)
+		// typed as an array of the element type so that indexing keeps the element's Go type (field access)
+		return Val{T: "(select " + g.stGet(e.st, g.ctx.elemComp(es)) + " (s.ref " + a.T + "))", S: "(Array Int " + es + ")", GoT: types.NewArray(et, 1<<40)}, nil
 	case "deref":
 		as, err := args()
 		if err != nil {
